@@ -136,6 +136,22 @@ func TestC10Equiv(t *testing.T) {
 				cut = true
 			}
 		}
+		// SETATTRs that must be refused (size beyond the maximum, size of a directory) although they also carry times
+		acts["setattr_refused"] = func(t *rapid.T) {
+			var r Ref
+			sz := x.M.Lim.MaxFileSize + uint64(pick(t, []int{1, 4096, 1 << 20}, "beyond"))
+			if dirs := x.M.LiveKind(nt.NF3DIR); rapid.Bool().Draw(t, "ondir") && len(dirs) > 0 {
+				r = LiveRef(pick(t, dirs, "dir"))
+				sz = uint64(pick(t, []int{0, 100, 4096}, "dirsize"))
+			} else if files := x.M.LiveKind(nt.NF3REG); len(files) > 0 {
+				r = LiveRef(pick(t, files, "file"))
+			} else {
+				t.Skip("no object")
+			}
+			if x.Setattr(r, &sz, true) != nil {
+				cut = true
+			}
+		}
 		ncheck, nAbortMod, nEvict, nAfterRebuild := 0, 0, 0, 0
 		abortsSeen := int64(0)
 		checkpoint := func(t *rapid.T) {
